@@ -1,16 +1,28 @@
 """C07 - Written LAMMPS data/dump and POSCAR files are well formed and describe the system.
 
-Every file is produced through System.dump(...) as a string (or into an io.StringIO: no disk I/O) and read back
-by the independent readers in pbt/oracles (lammps_data, lammps_dump, poscar; unit table lammps_units).  Nothing of
-atomman.load is used.
+Every file is produced through System.dump(...) as a string, into an io.StringIO or (data files, a share) into a
+named file in a private temporary directory, and read back by the independent readers in pbt/oracles (lammps_data,
+lammps_dump, poscar; unit table lammps_units).  Nothing of atomman.load is used.
+
+Data files are also written through the potential= route (PotentialLAMMPS records built offline with
+potentials.build_lammps_potential for every pair_coeff layout of the builders), with and without explicit
+units/atom_style arguments that differ from the potential's own; the same body oracle judges the file with the
+values that have to win, and the returned command snippet (units, atom_style, boundary, read_data, pair_style,
+pair_coeff, mass, comment prints) is judged against what was written.  Systems are handed over in several
+documented input forms (arrays, lists, Fortran-ordered, strided, read-only) and, for a share, after earlier
+non-modifying uses of the same System / potential object.
 
 Listed findings: a disagreement that belongs to an `open:` key of known_findings.txt is collected (class Known)
 and raised only after all other checks of the case have run, so the rest of the oracle stays active behind it;
 blocking ones (the writer raises) are raised at once.  The share guards of the two clauses that are blocked as a
 whole on the unchanged tree (poscar, snippet) are switched on only when the tree under test lets them through.
 """
+import copy
 import functools
 import io
+import os
+import shutil
+import tempfile
 
 import numpy as np
 from hypothesis import strategies as st
@@ -30,7 +42,10 @@ RULE = ("systems: LAMMPS-compatible cells (orthogonal/triclinic, lengths 0.5-50,
         "with scale 1, 0.5, 3.7, a.  Non-trivial: (cell tilted or origin != 0) AND >=1 atom outside [0,1)^3 AND "
         "(atom_style != atomic or units != metal) [data]; ... AND (units != metal or a scaled/unwrapped column or an "
         "extra) [dump]; (tilted, rotated or origin != 0) AND (scale != 1 or Cartesian) [poscar]; style or units not the "
-        "default [snippet]")
+        "default [snippet].  Data/snippet: a share through potential= (8 pair styles built offline, 1-3 model symbols, "
+        "allsymbols, system masses, comments on/off; explicit units/atom_style differing from the potential's in most), "
+        "f = str | StringIO | file name; all clauses: inputs as arrays | lists | Fortran | strided | read-only, a share "
+        "after earlier non-modifying dumps/reads on the same object")
 ASSUMPTIONS = [
     "the SI values of the LAMMPS units are those of the manual's units page (pbt/oracles/lammps_units.py); working-unit "
     "numbers are taken to SI with the plain base units m, kg, s, C of atomman.unitconvert (judged by C09)",
@@ -41,10 +56,15 @@ ASSUMPTIONS = [
     "density unit for electron)",
     "template and smd: either published column order is accepted",
     "a float format too coarse to separate lo from hi (box length < 200 print quanta) only gets the structural checks",
+    "potential route: the command lines of potentials.PotentialLAMMPS.pair_data_info are trusted for their syntax; "
+    "judged is that they name the units/atom_style/boundary/file the data file was written with and list exactly the "
+    "atom types of the file (symbols in type order, one mass per type; mass numbers only under metal/real units where "
+    "g/mol is the working unit); a system handed to a potential has all symbols set (potentials asserts it)",
     "data files: the writer's documented wrap (periodic directions wrapped with image flags, non-periodic bounds "
     "extended to hold all atoms) is part of the contract; how far a bound is extended is not checked",
 ]
-LEVEL_TEXT = ("Generated systems x atom styles x unit styles x float formats written with dump('atom_data'|'atom_dump'|"
+LEVEL_TEXT = ("Generated systems x atom styles x unit styles x float formats (x input forms, earlier uses of the object, "
+              "potential= with overriding arguments, string/file-like/file-name sinks) written with dump('atom_data'|'atom_dump'|"
               "'poscar') and read by independent parsers: structure, counts, bounds/tilt conventions, ids, containment, "
               "and every column against the snapshot converted with an independent unit table, to the printed precision.")
 TECHNIQUE = "independent LAMMPS data/dump and POSCAR readers + LAMMPS-manual unit table; printed-precision interval comparison"
@@ -256,6 +276,119 @@ def gen_symbols(rng, natypes, mode):
     return syms
 
 
+
+
+# ----------------------------------------------------------------------------- input forms and object history
+FORMS = ('array', 'array', 'array', 'list', 'fortran', 'readonly', 'strided')
+PRE_OPS = ('data_safe', 'dump', 'poscar', 'read')
+PRE_UNITS = ('metal', 'real', 'si', 'nano')
+
+
+def gen_form_history(rng):
+    """how the inputs are handed to atomman (documented array-likes) and what was done with the system before
+    the judged call: operations that are documented not to change the system"""
+    form = FORMS[int(rng.integers(0, len(FORMS)))]
+    pre = []
+    if rng.integers(0, 12) == 0:
+        for _ in range(int(rng.integers(1, 3))):
+            pre.append([PRE_OPS[int(rng.integers(0, len(PRE_OPS)))], PRE_UNITS[int(rng.integers(0, len(PRE_UNITS)))]])
+    return form, pre
+
+
+# ----------------------------------------------------------------------------- potential= route
+# LAMMPS potentials that potentials.build_lammps_potential builds offline (no database, no files read): the pair
+# styles cover every pair_coeff layout of the builders (parameter file + one symbol per atom type; library file +
+# model symbols + parameter file + symbols; eim; classic eam with one file per type; true pair styles with one
+# line per type pair).
+POT_STYLES = (('eam/alloy', 'param'), ('tersoff', 'param'), ('sw', 'param'), ('meam', 'libparam'), ('eim', 'eim'),
+              ('eam', 'eam'), ('lj/cut', 'pair'), ('morse', 'pair'))
+POT_ELEMENTS = ('Ni', 'Al', 'Cu', 'Fe', 'O')
+STD_MASS = {'Ni': 58.6934, 'Al': 26.98154, 'Cu': 63.546, 'Fe': 55.845, 'O': 15.999}     # IUPAC standard weights
+POT_COMMENTS = (None, 'c07 demonstration potential', 'two lines\nof comments')
+
+
+def _other(rng, pool, value):
+    rest = [v for v in pool if v != value]
+    return rest[int(rng.integers(0, len(rest)))]
+
+
+def gen_pot(rng, style, units, natypes, want_override):
+    """potential spec + the system's symbols/masses + the explicit units/atom_style arguments of the dump call.
+    `style`/`units` are what the file is to be written with: either given explicitly (then the potential's own
+    setting differs - the documented "individual values will be used" - or, rarely, coincides) or taken from the
+    potential (argument None)."""
+    ps, kind = POT_STYLES[int(rng.integers(0, len(POT_STYLES)))]
+    npot = int(rng.integers(1, 4))
+    elements = [POT_ELEMENTS[int(i)] for i in rng.permutation(len(POT_ELEMENTS))[:npot]]
+    symbols = [e + 'x' for e in elements] if rng.integers(0, 3) == 0 else list(elements)
+    pot = {'pair_style': ps, 'kind': kind, 'elements': elements, 'symbols': symbols,
+           'masses': [round(float(v), 3) for v in rng.uniform(1, 200, size=npot)] if rng.integers(0, 2) else None,
+           'allsymbols': bool(rng.integers(0, 3) == 0),
+           'comments': POT_COMMENTS[int(rng.integers(0, len(POT_COMMENTS)))],
+           'dois': ['10.1000/c07.%d' % int(rng.integers(0, 100))] if rng.integers(0, 3) == 0 else None,
+           'commands': [['pair_modify', 'shift', 'yes']] if rng.integers(0, 4) == 0 else None,
+           'style_terms': None, 'files': None, 'interactions': None}
+    if kind == 'param':
+        pot['files'] = ['model.%s' % ps.replace('/', '.')]
+    elif kind == 'libparam':
+        pot['files'] = ['library.meam', 'model.meam' if rng.integers(0, 2) else None]
+    elif kind == 'eim':
+        pot['files'] = ['ffield.eim']
+    elif kind == 'eam':
+        pot['files'] = ['%s.eam' % s for s in symbols]
+    else:
+        pot['style_terms'] = [round(float(rng.uniform(2, 12)), 2)]
+        nterm = 2 if ps == 'lj/cut' else 3
+        pot['interactions'] = [{'symbols': sorted([symbols[i], symbols[j]]),
+                                'terms': [round(float(v), 3) for v in rng.uniform(0.1, 4, size=nterm)]}
+                               for i in range(npot) for j in range(i, npot)]
+    # explicit argument / potential's own setting
+    args = {}
+    for name, value, pool in (('units', units, UNITS), ('atom_style', style, ALL_STYLES)):
+        m = int(rng.integers(0, 20))
+        if want_override:
+            m = 8 + m % 9
+        if m < 8:
+            args[name] = None; pot[name] = value                    # taken from the potential
+        elif m < 17:
+            args[name] = value; pot[name] = _other(rng, pool, value)  # explicit value overrides the potential's
+        else:
+            args[name] = value; pot[name] = value
+    sys_symbols = [symbols[int(i)] for i in rng.integers(0, npot, size=natypes)]
+    if rng.integers(0, 6) == 0:
+        sys_symbols.append(symbols[int(rng.integers(0, npot))])       # a trailing type without atoms
+    sys_masses = None
+    if rng.integers(0, 5) < 2:
+        sys_masses = [round(float(v), 3) if rng.integers(0, 3) else None for v in rng.uniform(1, 200, size=len(sys_symbols))]
+    comments_kw = (None, None, True, False, False)[int(rng.integers(0, 5))]
+    prior = None
+    if rng.integers(0, 4) == 0:
+        # the same potential object was used before, for another file with other explicit values
+        prior = {'units': UNITS[int(rng.integers(0, len(UNITS)))] if rng.integers(0, 3) else None,
+                 'atom_style': ('atomic', 'charge')[int(rng.integers(0, 2))]}
+    return pot, args, sys_symbols, sys_masses, comments_kw, prior
+
+
+def pot_norm_symbols(case):
+    """the symbol of every atom type LAMMPS will see: the system's, plus (allsymbols) the potential's unused ones"""
+    pot = case['pot']
+    out = list(case['symbols'])
+    if pot['allsymbols']:
+        out += [s for s in pot['symbols'] if s not in out]
+    return out
+
+
+def add_pot(case, rng, want_override):
+    """turn a data-file case into one that goes through dump('atom_data', potential=...)"""
+    pot, args, syms, masses, comments_kw, prior = gen_pot(rng, case['style'], case['units'], max(case['atype']), want_override)
+    case.update({'pot': pot, 'style_arg': args['atom_style'], 'units_arg': args['units'], 'symbols': syms,
+                 'masses': masses, 'comments_kw': comments_kw, 'prior': prior})
+
+
+_POTSHARE_DATA = st.sampled_from((False, False, False, True))
+_POTSHARE_SNIPPET = st.sampled_from((False, True, True))
+
+
 @st.composite
 def data_cases(draw):
     c = draw(_CELLS_LMP)
@@ -275,12 +408,16 @@ def data_cases(draw):
     own_ids = bool(bits & 128) and bool(bits & 512)
     if own_ids:
         props['atom_id'] = [int(v) for v in rng.permutation(np.arange(1, n + 4))[:n] * 3]
-    return {'cell': c, 'pbc': pbc, 'rel': rel, 'atype': atype, 'props': props, 'symbols': None,
+    case = {'cell': c, 'pbc': pbc, 'rel': rel, 'atype': atype, 'props': props, 'symbols': None,
             'style': style, 'units': units, 'fmt': fmt,
             'style_arg': None if (style == 'atomic' and bits & 4) else style,
             'units_arg': None if (units == 'metal' and bits & 8) else units,
             'safecopy': bool(bits & 16), 'return_info': bool(bits & 32),
-            'natypes_extra': 1 if (bits & 256) else 0, 'sink': 'io' if (bits & 3072) == 3072 else 'str'}
+            'natypes_extra': 1 if (bits & 256) else 0, 'sink': ('str', 'str', 'path', 'io')[(bits >> 10) & 3]}
+    if draw(_POTSHARE_DATA):
+        add_pot(case, rng, False)
+    case['form'], case['pre'] = gen_form_history(rng)
+    return case
 
 
 DUMP_OPTIONAL = ('velocity', 'force', 'charge', 'mu', 'mass', 'diameter', 'radius', 'ang_velocity', 'ang_momentum',
@@ -313,8 +450,10 @@ def dump_cases(draw):
         variants = [POSVARIANTS[int(i)] for i in rng.permutation(4)[:k]]
         others = [p for p in props if p != 'atom_id' and rng.integers(0, 2)]
         explicit = ['atom_id', 'atype'] + variants + others
+    form, pre = gen_form_history(rng)
     return {'cell': c, 'pbc': pbc, 'rel': rel, 'atype': atype, 'props': props, 'symbols': None,
-            'units': units, 'fmt': fmt, 'prop_name': explicit, 'sink': 'io' if (bits & 12) == 12 else 'str'}
+            'units': units, 'fmt': fmt, 'prop_name': explicit, 'sink': 'io' if (bits & 12) == 12 else 'str',
+            'form': form, 'pre': pre}
 
 
 _SCALES = st.sampled_from([1.0, 1.0, 0.5, 3.7, 'a'])
@@ -342,9 +481,10 @@ def poscar_cases(draw):
         sym_arg = [s for s in gen_symbols(rng, natypes, 1)]
     if scale == 'a':
         scale = c['lx']
+    form, pre = gen_form_history(rng)
     return {'cell': c, 'pbc': draw(gens.pbcs), 'rel': rel, 'atype': atype, 'props': {}, 'symbols': syms,
             'symbols_arg': sym_arg, 'scale': scale, 'coord': coord, 'fmt': fmt, 'header': draw(_HEADER),
-            'sink': 'io' if (bits & 48) == 48 else 'str'}
+            'sink': 'io' if (bits & 48) == 48 else 'str', 'form': form, 'pre': [q for q in pre if q[0] == 'read']}
 
 
 @st.composite
@@ -358,10 +498,15 @@ def snippet_cases(draw):
     rng = np.random.default_rng(draw(_SEED))
     n = len(rel)
     props = {name: gen_prop(rng, name, n) for name in style_props(style, False)}
-    return {'cell': c, 'pbc': pbc, 'rel': rel, 'atype': gen_atype(rng, n), 'props': props, 'symbols': None,
+    case = {'cell': c, 'pbc': pbc, 'rel': rel, 'atype': gen_atype(rng, n), 'props': props, 'symbols': None,
             'style': style, 'units': units, 'fmt': '%.8f',
             'style_arg': None if (style == 'atomic' and bits & 4) else style,
-            'units_arg': None if (units == 'metal' and bits & 8) else units}
+            'units_arg': None if (units == 'metal' and bits & 8) else units,
+            'sink': ('str', 'str', 'path', 'io')[(bits >> 10) & 3]}
+    if draw(_POTSHARE_SNIPPET):
+        add_pot(case, rng, bool(bits & 16))
+    case['form'], case['pre'] = gen_form_history(rng)
+    return case
 
 
 # ============================================================================= building the system
@@ -376,10 +521,79 @@ def snapshot(case):
 
 
 def build_system(am, case, V, o, x0):
+    form = case.get('form', 'array')
     props = {k: np.array(v) for k, v in case['props'].items()}
-    atoms = am.Atoms(atype=np.array(case['atype'], dtype=int), pos=x0.copy(), **props)
-    box = am.Box(vects=V.copy(), origin=o.copy())
-    return am.System(atoms=atoms, box=box, pbc=list(case['pbc']), symbols=case.get('symbols'), scale=False)
+    atype = np.array(case['atype'], dtype=int)
+    pos = x0.copy()
+    vects, origin = V.copy(), o.copy()
+    pbc = list(case['pbc'])
+    if form == 'list':
+        # plain Python sequences (floats convert exactly)
+        props = copy.deepcopy(case['props'])
+        atype, pos, vects, origin, pbc = list(case['atype']), x0.tolist(), V.tolist(), o.tolist(), tuple(case['pbc'])
+    elif form == 'fortran':
+        pos = np.asfortranarray(pos)
+        vects = np.asfortranarray(vects)
+        props = {k: (np.asfortranarray(v) if v.ndim > 1 else v) for k, v in props.items()}
+        atype = atype.astype(np.int32)
+        pbc = np.array(case['pbc'], dtype=bool)
+    elif form == 'strided':
+        big = np.zeros((len(x0), 6))
+        big[:, ::2] = x0
+        pos = big[:, ::2]
+        wide = np.zeros(2 * len(x0), dtype=int)
+        wide[::2] = case['atype']
+        atype = wide[::2]
+    elif form == 'readonly':
+        for a in [pos, vects, origin, atype] + list(props.values()):
+            a.setflags(write=False)
+    # read-only arrays: Atoms documents that without safecopy a property may point to the caller's array (the in-place
+    # wrap of dump then has nothing to write to: documented aliasing, not judged), so they go in with safecopy=True
+    atoms = am.Atoms(atype=atype, pos=pos, safecopy=(form == 'readonly'), **props)
+    box = am.Box(vects=vects, origin=origin)
+    kw = {}
+    if case.get('masses') is not None:
+        kw['masses'] = list(case['masses'])
+    system = am.System(atoms=atoms, box=box, pbc=pbc, symbols=case.get('symbols'), scale=False, **kw)
+    for op, u in case.get('pre') or []:
+        # earlier use of the same object that is documented to leave it as it is
+        if op == 'data_safe':
+            system.dump('atom_data', safecopy=True, units=u, atom_style='atomic')
+        elif op == 'dump':
+            system.dump('atom_dump', lammps_units=u)
+        elif op == 'poscar':
+            system.dump('poscar')
+        else:
+            system.natypes, system.natoms, system.box.a, system.box.alpha, system.box.volume, system.atoms_prop(), system.pbc, system.atoms.pos
+    return system
+
+
+def form_labels(case, labels):
+    labels.add('form_' + case.get('form', 'array'))
+    if case.get('pre'):
+        labels.add('history')
+
+
+def build_potential(p):
+    """PotentialLAMMPS record built offline from the spec (fixed keys: nothing random, nothing read from disk)"""
+    import potentials
+    kw = dict(pair_style=p['pair_style'], id='c07-' + p['kind'], key='4a0c7c07-0000-4000-8000-000000000001',
+              potid='c07-model', potkey='4a0c7c07-0000-4000-8000-000000000002', symbols=list(p['symbols']),
+              elements=list(p['elements']), units=p['units'], atom_style=p['atom_style'], allsymbols=bool(p['allsymbols']))
+    for src, dst in (('masses', 'masses'), ('comments', 'comments'), ('dois', 'dois'), ('style_terms', 'pair_style_terms'),
+                     ('commands', 'command_terms')):
+        if p.get(src) is not None:
+            kw[dst] = [list(v) for v in p[src]] if src == 'commands' else (list(p[src]) if isinstance(p[src], list) else p[src])
+    kind = p['kind']
+    if kind in ('param', 'eim'):
+        kw['paramfile'] = p['files'][0]
+    elif kind == 'libparam':
+        kw['libfile'], kw['paramfile'] = p['files'][0], p['files'][1]
+    elif kind == 'eam':
+        kw['paramfiles'] = list(p['files'])
+    else:
+        kw['interactions'] = [{'symbols': list(i['symbols']), 'terms': list(i['terms'])} for i in p['interactions']]
+    return potentials.build_lammps_potential(**kw).potential()
 
 
 def system_labels(case, s0):
@@ -394,6 +608,7 @@ def system_labels(case, s0):
     labs.add('pbc_all' if all(p) else 'pbc_none' if not any(p) else 'pbc_mixed')
     if len(set(case['atype'])) < max(case['atype']):
         labs.add('type_gap')
+    form_labels(case, labs)
     return labs, outside
 
 
@@ -403,27 +618,60 @@ def _volume_involved(style):
     return style_needs(style, 'volume')
 
 
+def expected_natypes(case):
+    """atom types the header must announce: the natypes argument if given, else (documented) the system's natypes
+    or, with a potential, the number of symbols the potential needs listed"""
+    base = len(pot_norm_symbols(case)) if case.get('pot') is not None else max(case['atype'])
+    return base + case.get('natypes_extra', 0)
+
+
 def call_data_dump(case, system):
-    """System.dump('atom_data') with the listed blocking findings turned into keyed violations"""
+    """System.dump('atom_data') with the listed blocking findings turned into keyed violations.
+    Returns (what dump returned with the file content put back in front, file name given or None)."""
+    import atomman as am
     style, units = case['style'], case['units']
     kw = dict(atom_style=case['style_arg'], units=case['units_arg'], float_format=case['fmt'])
     if case.get('natypes_extra'):
-        kw['natypes'] = max(case['atype']) + case['natypes_extra']
+        kw['natypes'] = expected_natypes(case)
     if 'safecopy' in case:
         kw['safecopy'] = case['safecopy']
     if 'return_info' in case:
         kw['return_info'] = case['return_info']
+    if case.get('pot') is not None:
+        kw['potential'] = build_potential(case['pot'])
+        if case.get('comments_kw') is not None:
+            kw['comments'] = case['comments_kw']
+        pr = case.get('prior')
+        if pr is not None:
+            # history of the potential object: it wrote another system's file with other explicit values before
+            ns = len(case['symbols'])
+            other = am.System(atoms=am.Atoms(atype=list(range(1, ns + 1)), pos=np.full((ns, 3), 0.25), charge=np.zeros(ns)),
+                              box=am.Box(), symbols=list(case['symbols']))
+            other.dump('atom_data', potential=kw['potential'], units=pr['units'], atom_style=pr['atom_style'])
     buf = None
-    if case.get('sink') == 'io':
+    tmpdir = None
+    fname = None
+    sink = case.get('sink')
+    if sink == 'io':
         buf = kw['f'] = io.StringIO()
+    elif sink == 'path':
+        tmpdir = tempfile.mkdtemp(prefix='c07-')
+        fname = kw['f'] = os.path.join(tmpdir, 'atom.dat')
     try:
         ret = system.dump('atom_data', **kw)
-        if buf is not None:
-            # content goes to the file-like object; only the snippet (or nothing) is returned
-            require(ret is None or isinstance(ret, str), lambda: 'f=<file-like>: expected info str or None, got %r' % (type(ret),))
-            require((ret is not None) == bool(case.get('return_info', True)), lambda: 'f=<file-like>, return_info=%r: returned %r' % (case.get('return_info', True), type(ret)))
-            return (buf.getvalue(), ret) if ret is not None else buf.getvalue()
-        return ret
+        if sink in ('io', 'path'):
+            # content goes to the file / file-like object; only the snippet (or nothing) is returned
+            what = 'f=<file-like>' if sink == 'io' else 'f=<file name>'
+            require(ret is None or isinstance(ret, str), lambda: '%s: expected info str or None, got %r' % (what, type(ret),))
+            require((ret is not None) == bool(case.get('return_info', True)), lambda: '%s, return_info=%r: returned %r' % (what, case.get('return_info', True), type(ret)))
+            if sink == 'io':
+                content = buf.getvalue()
+            else:
+                require(os.path.isfile(fname), lambda: '%s: no file was written' % what)
+                with open(fname, encoding='UTF-8') as fp:
+                    content = fp.read()
+            return ((content, ret) if ret is not None else content), fname
+        return ret, None
     except KeyError as e:
         if e.args == ('volume',) and _volume_involved(style):
             raise Violation("dump('atom_data', atom_style=%r) raised KeyError('volume'): lammps.style.unit() has no "
@@ -433,6 +681,9 @@ def call_data_dump(case, system):
             raise Violation("dump('atom_data', atom_style=%r, units='lj') with velocities raised KeyError('None'): "
                             "ang-mom/ang-vel units of lj are the strings 'None*None*None' and '1/None'" % style, key=K_LJ_ANG)
         raise
+    finally:
+        if tmpdir is not None:
+            shutil.rmtree(tmpdir, ignore_errors=True)
 
 
 def oracle_data(case):
@@ -445,11 +696,12 @@ def oracle_data(case):
     base = base_units()
     kn = Known()
     system = build_system(am, case, V, o, x0)
-    ret = call_data_dump(case, system)
+    ret, fname = call_data_dump(case, system)
+    info = None
     if case['return_info']:
         require(isinstance(ret, tuple) and len(ret) == 2 and all(isinstance(r, str) for r in ret),
                 lambda: 'return_info=True: expected (content, info) strings, got %r' % (type(ret),))
-        text = ret[0]
+        text, info = ret
     else:
         require(isinstance(ret, str), lambda: 'return_info=False, f=None: expected the content as str, got %r' % (type(ret),))
         text = ret
@@ -459,13 +711,16 @@ def oracle_data(case):
         raise Violation('not a well-formed data file: %s\n%s' % (e, text[:600]))
     # ---- header counts
     require(d['natoms'] == n, lambda: 'header says %d atoms, the system has %d' % (d['natoms'], n))
-    exp_nt = max(case['atype']) + case['natypes_extra']
-    require(d['natypes'] == exp_nt, lambda: 'header says %d atom types, expected %d' % (d['natypes'], exp_nt))
+    exp_nt = expected_natypes(case)
+    require(d['natypes'] == exp_nt, lambda: 'header says %d atom types, expected %d%s' % (
+        d['natypes'], exp_nt, '' if case.get('pot') is None else ' (symbols the potential needs listed: %r)' % (pot_norm_symbols(case),)))
     sec = d['sections']
     require(len(sec['Atoms']['rows']) == n, 'Atoms section length')
     cm = sec['Atoms']['comment']
     if cm:
         require(cm.split()[0] == style.split()[0], lambda: 'Atoms section comment %r does not name atom_style %r' % (cm, style))
+    if info is not None:
+        judge_snippet(case, info, fname, labels, kn)
     has_vel = 'velocity' in case['props']
     require(('Velocities' in sec) == has_vel, lambda: 'Velocities section present=%r but system has velocity=%r' % ('Velocities' in sec, has_vel))
     # ---- box
@@ -579,6 +834,10 @@ def oracle_data(case):
         labels.add('own_ids')
     if case.get('sink') == 'io':
         labels.add('filelike')
+    if case.get('sink') == 'path':
+        labels.add('filename')
+    if case.get('pot') is not None:
+        labels.add('potential')
     if tilted and not (case['cell']['xy'] or case['cell']['xz']):
         labels.add('only_yz')
     if (labels & {'tilted', 'origin'}) and outside and (style != 'atomic' or units != 'metal'):
@@ -656,41 +915,195 @@ def _check_atoms(case, cols, recs, flags, kn, own, x0L, Vw, dVw, lo, hlo, arith,
 
 # ============================================================================= command snippet
 
+def parse_snippet(info):
+    """LAMMPS input lines -> [(command, [args])], [print lines]; '#' starts a comment (the print lines of the
+    potential's metadata are quoted text and kept apart)"""
+    cmds, prints = [], []
+    for line in info.split('\n'):
+        if line.split()[:1] == ['print']:
+            prints.append(line.strip())
+            continue
+        body = line.split('#')[0].split()
+        if body:
+            cmds.append((body[0], body[1:]))
+    return cmds, prints
+
+
+def _tokens_match(got, exp):
+    """command arguments against expected terms: words literally, numbers by value"""
+    if len(got) != len(exp):
+        return False
+    for g, e in zip(got, exp):
+        if isinstance(e, str):
+            if g != e:
+                return False
+        else:
+            try:
+                if float(g) != float(e):
+                    return False
+            except ValueError:
+                return False
+    return True
+
+
+def expected_pair_coeff(case):
+    """pair_coeff argument lists LAMMPS needs for the atom types of the written file (LAMMPS pair_style pages:
+    one element mapping per atom type after the file name(s) for the many-body styles; `I J args` for every pair of
+    types for true pair styles; `I I file` per type for classic eam) - written from the spec, not with potentials"""
+    pot = case['pot']
+    norm = pot_norm_symbols(case)
+    kind = pot['kind']
+    if kind == 'param':
+        return [['*', '*', pot['files'][0]] + norm]
+    if kind == 'libparam':
+        return [['*', '*', pot['files'][0]] + list(pot['symbols']) + [pot['files'][1] or 'NULL'] + norm]
+    if kind == 'eim':
+        return [['*', '*'] + list(pot['symbols']) + [pot['files'][0]] + norm]
+    if kind == 'eam':
+        return [[str(t + 1), str(t + 1), pot['files'][pot['symbols'].index(sym)]] for t, sym in enumerate(norm)]
+    terms = {tuple(i['symbols']): list(i['terms']) for i in pot['interactions']}
+    return [[str(i + 1), str(j + 1)] + terms[tuple(sorted([norm[i], norm[j]]))]
+            for i in range(len(norm)) for j in range(i, len(norm))]
+
+
+def judge_snippet(case, info, fname, labels, kn=None):
+    """the command snippet returned with a data file against what the file was written with (case['units'],
+    case['style'], the pbc, the file name, and - with a potential - the atom types of the file)"""
+    style, units = case['style'], case['units']
+    pot = case.get('pot')
+    cmds, prints = parse_snippet(info)
+    names = [c[0] for c in cmds]
+    for single in ('units', 'atom_style', 'boundary', 'read_data', 'pair_style'):
+        require(names.count(single) <= 1, lambda: 'command %s appears %d times in the snippet:\n%s' % (single, names.count(single), info))
+    first = {}
+    for i, nm in enumerate(names):
+        first.setdefault(nm, i)
+    def get(nm):
+        return cmds[first[nm]][1] if nm in first else None
+    require('boundary' in first and len(get('boundary')) == 3, lambda: 'snippet has no boundary command with three flags:\n%s' % info)
+    for i in range(3):
+        f = get('boundary')[i]
+        if case['pbc'][i]:
+            require(f == 'p', lambda: 'boundary flag %d is %r for a periodic direction' % (i, f))
+        else:
+            require(f in ('f', 's', 'm'), lambda: 'boundary flag %d is %r for a non-periodic direction' % (i, f))
+    if fname is None:
+        require('read_data' not in first, 'read_data command although no file name was given')
+    else:
+        require(get('read_data') == [fname], lambda: 'file written to %r but the snippet has read_data %r' % (fname, get('read_data')))
+        labels.add('read_data')
+    bad = []
+    if get('units') != [units]:
+        bad.append('units %s (file written in %s)' % (' '.join(get('units') or ['<missing>']), units))
+    if get('atom_style') != style.split():
+        bad.append('atom_style %s (file written as %s)' % (' '.join(get('atom_style') or ['<missing>']), style))
+    if bad:
+        isnone = get('units') == ['None'] and get('atom_style') == ['None']
+        detail = 'snippet names ' + ' and '.join(bad)
+        if pot is not None:
+            detail += ' [potential: units %s atom_style %s; arguments: units=%r atom_style=%r]' % (
+                pot['units'], pot['atom_style'], case['units_arg'], case['style_arg'])
+        if isnone and kn is not None:
+            kn.add(detail, K_SNIPPET)
+            return
+        raise Violation(detail, key=K_SNIPPET if isnone else None)
+    # LAMMPS: units, atom_style and boundary cannot follow the command that creates the box
+    if 'read_data' in first:
+        for pre in ('units', 'atom_style', 'boundary'):
+            require(first[pre] < first['read_data'], lambda: '%s comes after read_data in the snippet:\n%s' % (pre, info))
+    if pot is None:
+        extra = sorted(set(names) & {'pair_style', 'pair_coeff', 'mass'})
+        require(not extra, lambda: 'no potential given but the snippet has %r commands' % (extra,))
+        return
+    # ---- potential part: describes the atom types of the file that was written
+    norm = pot_norm_symbols(case)
+    require('pair_style' in first, lambda: 'potential given but the snippet has no pair_style command:\n%s' % info)
+    exp_ps = [pot['pair_style']] + list(pot['style_terms'] or [])
+    require(_tokens_match(get('pair_style'), exp_ps), lambda: 'pair_style %r, the potential has %r' % (get('pair_style'), exp_ps))
+    got_pc = [c[1] for c in cmds if c[0] == 'pair_coeff']
+    exp_pc = expected_pair_coeff(case)
+    left = list(got_pc)
+    for e in exp_pc:
+        hit = [g for g in left if _tokens_match(g, e)]
+        require(hit, lambda: 'no pair_coeff line %r for the file\'s atom types (symbols %r); the snippet has %r' % (e, norm, got_pc))
+        left.remove(hit[0])
+    require(not left, lambda: 'pair_coeff lines %r do not belong to the file\'s atom types (symbols %r)' % (left, norm))
+    got_m = [c[1] for c in cmds if c[0] == 'mass']
+    require(all(len(g) == 2 and LD.is_int(g[0]) for g in got_m) and sorted(int(g[0]) for g in got_m) == list(range(1, len(norm) + 1)),
+            lambda: 'mass lines %r: expected one for each of the %d atom types the potential lists' % (got_m, len(norm)))
+    if units in ('metal', 'real'):
+        # g/mol = the working mass unit: the numbers are the system's masses where set, else the potential's
+        sm = list(case.get('masses') or [])
+        for g in got_m:
+            t = int(g[0]) - 1
+            k = pot['symbols'].index(norm[t])
+            if t < len(sm) and sm[t] is not None:
+                exp, rel = sm[t], 1e-12
+            elif pot['masses'] is not None:
+                exp, rel = pot['masses'][k], 1e-12
+            else:
+                exp, rel = STD_MASS[pot['elements'][k]], 2e-3
+            require(abs(float(g[1]) - exp) <= rel * exp, lambda: 'mass %s %s: type %d (%s) has mass %r in the system/potential' % (g[0], g[1], t + 1, norm[t], exp))
+    last_pre = max(first[k] for k in ('units', 'atom_style', 'boundary') if k in first)
+    box = first.get('read_data', last_pre)
+    for nm in ('pair_style', 'pair_coeff', 'mass'):
+        require(first[nm] > box, lambda: '%s precedes the units/atom_style/boundary/read_data block:\n%s' % (nm, info))
+    require(first['pair_style'] < first['pair_coeff'], 'pair_coeff before pair_style')
+    ck = case.get('comments_kw')
+    if ck is False:
+        require(not prints, lambda: 'comments=False but the snippet prints %r' % (prints,))
+    elif pot['comments'] is not None:
+        for part in pot['comments'].split('\n'):
+            require(any(part in p for p in prints), lambda: 'comments=%r: the potential\'s comment %r is not printed' % (ck, part))
+        labels.add('pot_comments')
+    if pot['commands']:
+        for c in pot['commands']:
+            require(any(nm == c[0] and _tokens_match(a, c[1:]) for nm, a in cmds), lambda: 'the potential\'s extra command %r is missing' % (c,))
+    labels.add('pot')
+    labels.add('pot_' + pot['kind'])
+    ov = [k for k, arg in (('units', case['units_arg']), ('atom_style', case['style_arg'])) if arg is not None and arg != pot[k]]
+    if ov:
+        labels.add('pot_override')
+        for k in ov:
+            labels.add('pot_override_' + k)
+    if case['units_arg'] is None or case['style_arg'] is None:
+        labels.add('pot_own')
+    if len(norm) > len(case['symbols']):
+        labels.add('pot_allsymbols_added')
+    if len(case['symbols']) > max(case['atype']):
+        labels.add('pot_trailing_type')
+    if case.get('masses') is not None:
+        labels.add('pot_sysmasses')
+    if case.get('prior') is not None:
+        labels.add('pot_prior_use')
+
+
 def oracle_snippet(case):
     import atomman as am
     V, o, s0, x0 = snapshot(case)
     labels, outside = system_labels(case, s0)
     system = build_system(am, case, V, o, x0)
-    ret = call_data_dump(case, system)
+    ret, fname = call_data_dump(case, system)
     require(isinstance(ret, tuple) and len(ret) == 2 and isinstance(ret[1], str), lambda: 'expected (content, info), got %r' % (type(ret),))
-    info = ret[1]
-    cmds = {}
-    for line in info.split('\n'):
-        body = line.split('#')[0].split()
-        if body:
-            require(body[0] not in cmds, lambda: 'command %s appears twice in the snippet' % body[0])
-            cmds[body[0]] = body[1:]
-    require('boundary' in cmds and len(cmds['boundary']) == 3, lambda: 'snippet has no boundary command with three flags:\n%s' % info)
-    for i in range(3):
-        f = cmds['boundary'][i]
-        if case['pbc'][i]:
-            require(f == 'p', lambda: 'boundary flag %d is %r for a periodic direction' % (i, f))
-        else:
-            require(f in ('f', 's', 'm'), lambda: 'boundary flag %d is %r for a non-periodic direction' % (i, f))
-    require('read_data' not in cmds, 'read_data command although no file name was given')
+    text, info = ret
     style, units = case['style'], case['units']
-    bad = []
-    if cmds.get('units') != [units]:
-        bad.append('units %s (file written in %s)' % (' '.join(cmds.get('units', ['<missing>'])), units))
-    if cmds.get('atom_style') != style.split():
-        bad.append('atom_style %s (file written as %s)' % (' '.join(cmds.get('atom_style', ['<missing>'])), style))
-    if bad:
-        isnone = cmds.get('units') == ['None'] and cmds.get('atom_style') == ['None']
-        raise Violation('snippet names ' + ' and '.join(bad), key=K_SNIPPET if isnone else None)
+    judge_snippet(case, info, fname, labels)
+    # the header of the file the snippet came with (full judgement of the body: clause data)
+    try:
+        d = LD.parse(text)
+    except LD.FormatError as e:
+        raise Violation('not a well-formed data file: %s\n%s' % (e, text[:600]))
+    exp_nt = expected_natypes(case)
+    require(d['natypes'] == exp_nt, lambda: 'header says %d atom types, expected %d' % (d['natypes'], exp_nt))
+    cm = d['sections']['Atoms']['comment']
+    if cm:
+        require(cm.split()[0] == style.split()[0], lambda: 'Atoms section comment %r does not name atom_style %r' % (cm, style))
     labels.add('style_' + style.replace(' ', '_'))
     labels.add('units_' + units)
     if case['style_arg'] is None or case['units_arg'] is None:
         labels.add('defaults')
+    if case.get('sink') == 'io':
+        labels.add('filelike')
     if style != 'atomic' or units != 'metal':
         labels.add('nt')
     return labels
@@ -1012,19 +1425,29 @@ _BLOCKED = _blocked()
 CLAUSES = [
     Clause('data', oracle_data, data_cases, quick=9000, thorough=150000,
            min_share={'nt': 0.15, 'imageflags': 0.18, 'extended': 0.3, 'velocities': 0.11, 'only_yz': 0.015,
-                      'hybrid': 0.02, 'safecopy': 0.09},
-           desc="dump('atom_data'): header counts, lo<hi, tilt line, ids, containment, cell (wrap contract), types, positions "
-                "with image flags re-applied, per-style columns and Velocities against the independent unit table"),
+                      'hybrid': 0.02, 'safecopy': 0.09, 'potential': 0.07, 'pot_override': 0.024, 'pot_own': 0.02,
+                      'filename': 0.022, 'read_data': 0.012, 'history': 0.08, 'form_list': 0.04, 'form_fortran': 0.045,
+                      'form_readonly': 0.06, 'form_strided': 0.055},
+           desc="dump('atom_data') (also via potential= and into a named file): header counts, lo<hi, tilt line, ids, containment, "
+                "cell (wrap contract), types, positions with image flags re-applied, per-style columns and Velocities against the "
+                "independent unit table; the returned snippet judged as in clause snippet"),
     Clause('dump', oracle_dump, dump_cases, quick=6000, thorough=100000,
-           min_share={'nt': 0.2, 'explicit': 0.12, 'neg_tilt': 0.08, 'own_ids': 0.12},
+           min_share={'nt': 0.2, 'explicit': 0.12, 'neg_tilt': 0.08, 'own_ids': 0.12, 'history': 0.035, 'form_list': 0.06,
+                      'form_fortran': 0.065, 'form_readonly': 0.05, 'form_strided': 0.055},
            desc="dump('atom_dump'): ITEM blocks, boundary flags, bounding box <-> lo/hi/tilt relation, column header, "
                 "x|xs|xu|xsu unscaled with the written box, standard columns in LAMMPS units, extras as stored"),
     Clause('poscar', oracle_poscar, poscar_cases, quick=5000, thorough=80000,
            min_share={} if 'poscar' in _BLOCKED else {'nt': 0.15, 'cartesian': 0.08, 'scaled': 0.12, 'symbols': 0.15, 'zero_count': 0.05,
-                                                              'repeated_symbol': 0.06},
+                                                              'repeated_symbol': 0.06, 'form_list': 0.045, 'form_fortran': 0.037,
+                                                              'form_readonly': 0.055, 'form_strided': 0.04},
            desc="dump('poscar'): comment, scale, scale*lattice = box, species line, counts per type, mode line, "
                 "positions with the scale applied (up to the box origin), grouped by type"),
     Clause('snippet', oracle_snippet, snippet_cases, quick=1500, thorough=20000,
-           min_share={} if 'snippet' in _BLOCKED else {'nt': 0.4, 'defaults': 0.01},
-           desc="command snippet returned with a data file: boundary flags, units and atom_style actually used"),
+           min_share={} if 'snippet' in _BLOCKED else {'nt': 0.4, 'defaults': 0.01, 'pot': 0.22, 'pot_override': 0.18,
+                                                               'pot_own': 0.08, 'pot_prior_use': 0.05, 'pot_allsymbols_added': 0.02,
+                                                               'pot_sysmasses': 0.08, 'pot_comments': 0.08, 'read_data': 0.02,
+                                                               'history': 0.12},
+           desc="command snippet returned with a data file, without and with potential= (explicit units/atom_style overriding "
+                "the potential's): boundary flags, units and atom_style actually used, read_data file name, command order, "
+                "pair_style/pair_coeff/mass lines for exactly the atom types of the file, comments switch"),
 ]
